@@ -222,7 +222,7 @@ def r5_unnamed_params(s, file, log):
 
 
 def r6_adaptors(s, file, log):
-    for name in ('chain', 'cloned', 'enumerate', 'sum', 'map'):
+    for name in ('chain', 'cloned', 'enumerate', 'sum', 'map', 'filter'):
         s = _sub(s, r'\.' + name + r'\s*(\(|::<)', '.vx_' + name + r'\1', 'R6:' + name, file, log)
     return s
 
@@ -318,6 +318,7 @@ def gen_codecs():
         out.append('    fn serialize_compressed(&self, w: &mut Cursor<Vec<u8>>) -> (r: Result<(), SerializationError>) { unimplemented!() }')
         out.append('}')
         out.append('impl%s CanonicalDeserialize for %s%s {' % (g, c['name'], gn))
+        out.append('    uninterp spec fn valid_decoding(bytes: Seq<u8>, v: Self) -> bool;')
         for f in ('deserialize_compressed', 'deserialize_compressed_unchecked', 'deserialize_uncompressed'):
             out.append('    #[verifier::external_body]')
             out.append('    fn %s(r: &mut Cursor<&[u8]>) -> Result<Self, SerializationError> { unimplemented!() }' % f)
